@@ -114,13 +114,33 @@ Atoms(t) == SelectPoints(t, LAMBDA p : p.k # "list")
 
 \* does the item contain a value whose printed form is not modelled exactly (arbitrary floats),
 \* or an identifier that is not a single plain token?
+---------------------------------------------------------------------------
+(* printing (Display of Item / PushStack<Item>): exact for everything except floats *)
+RECURSIVE JoinStr(_, _)
+JoinStr(ss, sep) == IF ss = <<>> THEN "" ELSE IF Len(ss) = 1 THEN ss[1]
+                    ELSE ss[1] \o sep \o JoinStr(Tail(ss), sep)
+BoolStr(b) == IF b THEN "TRUE" ELSE "FALSE"
+RECURSIVE PrintItem(_)
+PrintItem(t) ==
+  CASE t.k = "int"  -> ToString(t.v)
+    [] t.k = "bool" -> BoolStr(t.v)
+    [] t.k \in {"ins", "id"} -> t.v
+    [] t.k = "list" -> "( " \o JoinStr([i \in 1..Len(t.v) |-> PrintItem(t.v[i])], " ") \o " )"
+    [] t.k = "bvec" -> "[" \o JoinStr([i \in 1..Len(t.v) |-> BoolStr(t.v[i])], ",") \o "]"
+    [] t.k = "ivec" -> "[" \o JoinStr([i \in 1..Len(t.v) |-> ToString(t.v[i])], ",") \o "]"
+    [] OTHER -> "?"
+\* a whole stack of items, top first, blank separated
+PrintItems(stk) == JoinStr([i \in 1..Len(stk) |-> PrintItem(stk[i])], " ")
+
 RECURSIVE HasSpace(_, _)
 HasSpace(str, i) == IF i > Len(str) THEN FALSE
                     ELSE IF SubSeq(str, i, i) = " " THEN TRUE ELSE HasSpace(str, i + 1)
-PlainName(n) == Len(n) > 0 /\ ~HasSpace(n, 1)
+LowerCase == {"a","b","c","d","e","f","g","h","i","j","k","l","m","n","o","p","q","r","s","t","u","v","w","x","y","z"}
+\* a name that cannot be confused with the printed form of any other kind of token
+PlainName(n) == Len(n) > 0 /\ SubSeq(n, 1, 1) \in LowerCase /\ ~HasSpace(n, 1)
 Fuzzy(t) == \E i \in 1..Len(Points(t)) :
               LET p == Points(t)[i] IN
               \/ p.k \in {"float", "fvec", "graph", "index"}
               \/ (p.k = "id" /\ ~PlainName(p.v))
-              \/ (p.k = "ins" /\ ~PlainName(p.v))
+              \/ (p.k = "ins" /\ HasSpace(p.v, 1))
 =============================================================================
